@@ -415,6 +415,9 @@ fn cmonitor(cw: &CWorld, op: &COp, pre: &CSnap, post: &CSnap, o: &Outcome, m: &m
             let (dup, multi) = decl_shape(decls, *n);
             if dup { m.dup_accepted += 1; m.tainted.entry(*n).or_insert("F4-duplicate-claim-id-in-extension"); }
             else if multi { m.split_accepted += 1; m.tainted.entry(*n).or_insert("F4b-sector-in-two-declarations"); }
+            // since fix 081fc6c such declarations must be refused
+            if dup { bad.push(("F4-duplicate-claim-id-in-extension".into(), format!("a declaration listing a claim id twice for sector {} was accepted", n))); }
+            else if multi { bad.push(("F4b-sector-in-two-declarations".into(), format!("sector {} was extended by a message naming it in two declarations", n))); }
         }
     }
     if let COp::Onboard { n, .. } = op {
